@@ -7,7 +7,7 @@
    of [cfg] are the places where the pinned and the current tree differ;
    [fixed_cfg] is the current tree (validated behaviourally on every run by the
    scenario correspondence), [pinned_cfg] the tree before the fix commits. *)
-From G Require Import Base Sys SysProofs SysProps.
+From G Require Import Base Sys SysProofs SysProps SysTerm.
 Open Scope nat_scope.
 
 Theorem C11_no_client_needed : forall cfg s, stop_interrupts cfg = true -> add_before_accept cfg = true ->
@@ -29,6 +29,25 @@ Theorem C11_untracked_needs_no_client : forall cfg c todo, untrack_late cfg = tr
   todo = [TOnClose; TWgDone] \/ todo = [TWgDone] \/ todo = [TOnClose] \/ todo = [].
 Proof. exact untracked_rest. Qed.
 Print Assumptions C11_untracked_needs_no_client.
+
+(* bounded: a measure that every step of the server's own goroutines strictly decreases, in
+   every state and configuration - so between two actions of the environment the server takes
+   at most [mu s] steps, in every schedule *)
+Theorem C11_every_internal_step_decreases : forall cfg s l s', internal l = true -> step cfg s l = Some s' -> mu s' < mu s.
+Proof. exact internal_step_decreases. Qed.
+Print Assumptions C11_every_internal_step_decreases.
+
+(* ... and when, after at most [mu s] such steps, nothing of the server is enabled any more,
+   the process is alive and no user code blocks, every Stop call has returned *)
+Theorem C11_stop_returns_within_bound : forall cfg s ls s',
+  stop_interrupts cfg = true -> add_before_accept cfg = true -> untrack_late cfg = true ->
+  reachable cfg s ->
+  Forall (fun l => internal l = true) ls -> run_labels cfg s ls = Some s' ->
+  length ls <= mu s /\
+  ((forall l, internal l = true -> step cfg s' l = None) -> alive s' = true -> no_external_block s' ->
+   forall i p, nth_error (stops s') i = Some p -> p = SRet).
+Proof. exact stop_returns_within_bound. Qed.
+Print Assumptions C11_stop_returns_within_bound.
 
 (* with untrackConn before conn.close (first version of the repair) Stop can wait for ever *)
 Theorem C11_early_untrack_refuted :
